@@ -193,6 +193,23 @@ CLAIMED = {
         "Trusted: Lean kernel, standard axioms, hand model; the tie carries the weight for this property.",
         "Lean 4 proof about a reference-free model + correspondence under in-place edits + argument-mutation monitor",
         "DESIGN.md §5 C10"),
+    "C07": (
+        "Machine-checked Lean 4 proof over an ordered field, for every curve, about a hand model of the six "
+        "preprocessing steps, find_turning_point and smooth_axis_monotone: tip position = height + force/k at every "
+        "index; force-offset and tip-offset corrections shift their column by a constant with zero mean pre-contact "
+        "force / zero tip position at the contact index; slope correction leaves data outside the region untouched, "
+        "vanishes at the reference index (no jump), is the fitted line up to a constant and - with the least-squares "
+        "line - leaves zero baseline trend; the segment column has a single switch at the first farthest point; "
+        "whenever smooth_axis_monotone returns, the result is strictly monotonic and as long as the input (window "
+        "doubling + tie breaking incl. the end-of-array branch, by an invariant over loop iterations). Tied by "
+        "executing the model at exact rationals on integer-valued curves step by step. Partial: lmfit's linear fit "
+        "is replaced by the closed-form least-squares line (measured), rounding, the farthest-point location on "
+        "lagged curves and termination on real data are explored by the oracle.",
+        "Trusted: Lean kernel, standard axioms, hand model (sampled exact correspondence), lmfit LinearModel = "
+        "least squares (measured to 1e-6), scipy median_filter mode=nearest semantics as modelled.",
+        "Lean 4 proof over an ordered field (loop invariants for the smoothing) + exact-rational step-by-step "
+        "correspondence + property oracle on synthetic and recorded curves x all option values",
+        "DESIGN.md §5 C07"),
     "C08": (
         "Machine-checked Lean 4 proof over an ordered field, for every force array, about a hand model of "
         "compute_poc, the approach clipping and all six estimators (threshold, Frechet, gradient incl. the moving "
@@ -208,6 +225,23 @@ CLAIMED = {
         "Lean 4 proof over an ordered field (optimiser as parameter) + exact-rational correspondence + recorded "
         "optimiser inputs + property oracle on grids, degenerate arrays and recorded curves",
         "DESIGN.md §5 C08"),
+    "C17": (
+        "Machine-checked Lean 4 proof over an ordered field, for every approach segment, about a hand model of 14 of "
+        "the 15 rating features and of get_feature_names / compute_features: each modelled feature is unchanged "
+        "when force and fit are multiplied by a common positive factor (for every Gaussian filter that is "
+        "homogeneous and every positively homogeneous standard deviation - the assumed behaviour of the library "
+        "routines), fraction-type features lie in [0, 1], the logarithm arguments of the magnitude-type features are "
+        "non-negative when the maximal approach force is positive, a zero denominator gives NaN; names come out "
+        "sorted for every which_type form and are exactly the requested members of the requested types. Tied by "
+        "calling the real feature methods in-process on integer-valued stub datasets and the model at exact rationals "
+        "on the same arrays (scipy's Gaussian weights as data), and all which_type forms x name subsets. Partial: "
+        "feat_con_idt_maxima_75perc, NaN inside a partially fitted segment, binary64 evaluation, independence of the "
+        "retract segment and the unfitted states are explored by the oracle, not proved.",
+        "Trusted: Lean kernel, standard axioms, hand model (sampled exact correspondence), gaussian_filter1d "
+        "homogeneous, np.std positively homogeneous, lstsq = least squares, log wrappers outside the model.",
+        "Lean 4 proof over an ordered field (library routines as parameters with stated behaviour) + exact-rational "
+        "correspondence on stub datasets + property oracle on fitted / unfitted curves",
+        "DESIGN.md §5 C17"),
     "C15": (
         "Machine-checked Lean 4 proof over an ordered field, for every matrix shape and every NaN/+-inf pattern, "
         "about a hand model of load_training_set (after the files were read) and compute_sample_weight: with "
